@@ -1,6 +1,7 @@
 from __future__ import annotations
 
 import os
+import threading
 from collections.abc import Iterable
 from pathlib import Path
 from types import TracebackType
@@ -18,6 +19,8 @@ import fakesnow.info_schema as info_schema
 import fakesnow.macros as macros
 from fakesnow.cursor import FakeSnowflakeCursor
 from fakesnow.variables import Variables
+
+_create_on_connect_lock = threading.Lock()
 
 
 class FakeSnowflakeConnection:
@@ -51,35 +54,39 @@ class FakeSnowflakeConnection:
         self._paramstyle = snowflake.connector.paramstyle
         self.variables = Variables()
 
-        # create database if needed
-        if create_database and self.database:
-            if not duck_conn.execute(
-                f"""select * from information_schema.schemata
-                where upper(catalog_name) = '{self.database}'"""
-            ).fetchone():
+        # concurrent connections must neither create the same database or schema twice, nor use a database
+        # that another connection has attached but not bootstrapped yet, so check-then-create is serialised.
+        # An existing database is not bootstrapped again: concurrent (even idempotent) DDL conflicts in duckdb
+        with _create_on_connect_lock:
+            # create database if needed
+            if (
+                create_database
+                and self.database
+                and not duck_conn.execute(
+                    f"""select * from information_schema.schemata
+                    where upper(catalog_name) = '{self.database}'"""
+                ).fetchone()
+            ):
                 db_file = f"{self.db_path/self.database}.db" if self.db_path else ":memory:"
-                # IF NOT EXISTS because another connection may be creating the same database concurrently
-                duck_conn.execute(f"ATTACH IF NOT EXISTS DATABASE '{db_file}' AS {self.database}")
-            # always (re)run the idempotent bootstrap, because a concurrent connection that attached
-            # the database first may not have created the info schema extensions yet
-            duck_conn.execute(info_schema.creation_sql(self.database))
-            duck_conn.execute(macros.creation_sql(self.database))
+                duck_conn.execute(f"ATTACH DATABASE '{db_file}' AS {self.database}")
+                duck_conn.execute(info_schema.creation_sql(self.database))
+                duck_conn.execute(macros.creation_sql(self.database))
 
-        # create schema if needed (and possible, ie: its database exists)
-        if (
-            create_schema
-            and self.database
-            and self.schema
-            and duck_conn.execute(
-                f"""select * from information_schema.schemata
-                where upper(catalog_name) = '{self.database}'"""
-            ).fetchone()
-            and not duck_conn.execute(
-                f"""select * from information_schema.schemata
-                where upper(catalog_name) = '{self.database}' and upper(schema_name) = '{self.schema}'"""
-            ).fetchone()
-        ):
-            duck_conn.execute(f"CREATE SCHEMA IF NOT EXISTS {self.database}.{self.schema}")
+            # create schema if needed (and possible, ie: its database exists)
+            if (
+                create_schema
+                and self.database
+                and self.schema
+                and duck_conn.execute(
+                    f"""select * from information_schema.schemata
+                    where upper(catalog_name) = '{self.database}'"""
+                ).fetchone()
+                and not duck_conn.execute(
+                    f"""select * from information_schema.schemata
+                    where upper(catalog_name) = '{self.database}' and upper(schema_name) = '{self.schema}'"""
+                ).fetchone()
+            ):
+                duck_conn.execute(f"CREATE SCHEMA {self.database}.{self.schema}")
 
         # set database and schema if both exist
         if (
